@@ -403,6 +403,15 @@ func (w *World) TaskOwners() map[string]string {
 	return out
 }
 
+// TaskLocked maps every task in the core's roster to Task.IsLocked().
+func (w *World) TaskLocked() map[string]bool {
+	out := map[string]bool{}
+	for _, t := range w.Core.Taskman.RosterForVerif() {
+		out[t.GetTaskId()] = t.LockedForVerif()
+	}
+	return out
+}
+
 // InterComponent is the point policy of the whole-core harnesses (see DESIGN 2.1).
 func InterComponent(kind vrt.OpKind, site string) bool {
 	switch kind {
